@@ -18,11 +18,26 @@ type c04Item struct {
 
 func checkC04(ix *index, add addFn) {
 	sc := ix.sc
-	hasHandler := false
+	// handler registrations in trace order; the handler that counts for a
+	// message is the one registered when it is handed over. The generator
+	// keeps registrations away from arrivals; with a slow handler a message can
+	// still wait across a replacement, which is why `which` looks at the
+	// hand-over and presence is only switched in runs without a slow handler.
+	type reg struct{ ret, h int }
+	var regs []reg
 	for i, op := range sc.Ops {
-		if op.Kind == "handle" && op.Handler != 0 && ix.ops[i].inv >= 0 {
-			hasHandler = true
+		if op.Kind == "handle" && ix.ops[i].inv >= 0 && ix.ops[i].ret >= 0 {
+			regs = append(regs, reg{ix.ops[i].ret, op.Handler})
 		}
+	}
+	cur := func(at int) int {
+		h, best := 0, -1
+		for _, g := range regs {
+			if g.ret < at && g.ret > best {
+				h, best = g.h, g.ret
+			}
+		}
+		return h
 	}
 	// expected sequence from the arrival sequence
 	var E []c04Item
@@ -36,6 +51,7 @@ func checkC04(ix *index, add addFn) {
 			continue
 		}
 		p := r.P
+		hasHandler := cur(i) != 0
 		switch p.Type {
 		case TPublish:
 			one := map[string]*Pkt{p.Pay: p}
@@ -67,6 +83,26 @@ func checkC04(ix *index, add addFn) {
 				// nothing is demanded for an unknown identifier; a PUBCOMP is tolerated
 				E = append(E, c04Item{kind: "ack", ackType: TPubComp, id: p.ID, rule: "q2", optional: true})
 			}
+		}
+	}
+	// which: every hand-over goes to the handler registered at that moment
+	for j := range ix.tr {
+		if j >= ix.end() {
+			break
+		}
+		q := &ix.tr[j]
+		if q.Kind != "hin" {
+			continue
+		}
+		same := false
+		for _, g := range regs {
+			if ix.tr[g.ret].T == q.T {
+				same = true
+			}
+		}
+		if want := cur(j); !same && int(q.V) != want {
+			add("which", fmt.Sprintf("message %q was handed to handler %d, the registered one is %d", q.P.Pay, q.V, want), nil)
+			break
 		}
 	}
 	// actual sequence
@@ -611,6 +647,49 @@ func checkC11(ix *index, add addFn) {
 func checkC11Reconn(ix *index, add addFn) {
 	sc := ix.sc
 	cs := ix.causes()
+	// nothing is left running for a dead connection: a transport whose writes
+	// fail while its read side stays silent can only be ended by the client
+	if ix.judge >= 0 && ix.complete {
+		for i := range ix.tr {
+			if i >= ix.end() {
+				break
+			}
+			r := &ix.tr[i]
+			if r.Kind != "write" || !r.B || r.Err == "" {
+				continue
+			}
+			half := false
+			for _, f := range sc.Faults {
+				if f.Kind == "writeErr" && f.Conn == r.Conn && f.Code == 2 {
+					half = true
+				}
+			}
+			if !half {
+				continue
+			}
+			closed := false
+			for j := i; j < ix.end(); j++ {
+				if q := &ix.tr[j]; q.Conn == r.Conn && (q.Kind == "close" || q.Kind == "cut") {
+					closed = true
+					break
+				}
+			}
+			if !closed {
+				// which packet the failed write carried (logged right after it)
+				what := "?"
+				for j := i + 1; j < ix.end() && ix.tr[j].T == r.T; j++ {
+					if q := &ix.tr[j]; q.Kind == "txfail" && q.Conn == r.Conn && q.P != nil {
+						what = q.P.Name()
+						if q.P.Type == TPublish {
+							what = fmt.Sprintf("PUBLISH/q%d", q.P.QoS)
+						}
+						break
+					}
+				}
+				add("dead-link", fmt.Sprintf("conn %d: the write of %s failed at t=%dns and the read side stayed silent; the client had not closed the transport when the run was judged", r.Conn, what, r.T), map[string]string{"pkt": what})
+			}
+		}
+	}
 	for k := range sc.Ops {
 		op := &sc.Ops[k]
 		o := ix.ops[k]
@@ -678,6 +757,12 @@ func checkC11Reconn(ix *index, add addFn) {
 			// without a deadline nothing is demanded here: Disconnect's context is
 			// alive and whether the loop can observe the request in its current
 			// phase is C09's disconnect-returns rule
+		case "publish", "subscribe", "unsubscribe":
+			// requests to the retrying client are queued and return at once; one that
+			// has not returned when the run is judged is blocked for good
+			if ix.judge >= 0 && (o.ret < 0 || o.ret >= ix.end()) && !strings.HasPrefix(o.extra, "skipped") {
+				add("returns", fmt.Sprintf("%s through the reconnecting client had not returned when the run was judged", op.Kind), map[string]string{"call": "reconnect." + op.Kind})
+			}
 		}
 	}
 }
